@@ -98,6 +98,40 @@ CLAIMS = {
             'eigh and numpy broadcasting are measured by the correspondence/search, not proved.',
             'DESIGN.md §3 C01'),
 }
+# round of 2026-10-01: what was added per property (technique suffix, level-text suffix, new level note or None)
+ADDENDA = {
+    'C02': ('; times and propagators of concatenated / tiled / remapped / extended pulses (modules C04Tile, C06Def)',
+            ' Times, duration and cumulative propagators of concatenated and periodically repeated pulses (any number of pulses, each with its own eigh output) and the times of remapped / extended pulses are theorems about the models Tile / RemapDef, which are run against the real functions.',
+            'LAPACK eigh is an oracle (contract measured, not proved); floating point not modelled (the search runs every oracle in units of time from 1e-9 to 1e9).'),
+    'C03': ('; Hamiltonian, times, cumulative and total (Liouville) propagators of the sequenced pulse = ordered products of the inputs\' (module C04Tile, model Tile)',
+            ' The total propagator and the cumulative Liouville propagators that concatenate stores are proved equal to the from-scratch quantities of the sequenced pulse for any number of pulses.', None),
+    'C04': ('; Hamiltonian, times, propagators Q_{kn+j} = Q_j Q_n^k, total propagator = matrix_power (NumPy\'s binary decomposition modelled), Liouville total propagator = L^G, identity total propagator at resonant frequencies (module C04Tile)',
+            ' Everything concatenate_periodic stores for the definition and propagator part equals the from-scratch quantities of the tiled pulse (concatPeriodicDef_eq_from_scratch), for every G >= 1, including pulses whose total propagator is the identity (the solve contract cannot be met there and the fallback gives G*1).',
+            'linalg.solve/det are oracles with stated contracts; floating-point conditioning near singular frequencies is measured (1e-6), not proved.'),
+    'C05': ('; definition part of extend on abstract pulses (model RemapDef, module C06Def): identifier mappings, operator placement, additional noise Hamiltonian by identifier, times, exact error classes',
+            ' The Hamiltonian bookkeeping of extend (which operator, coefficient row and identifier end up where; default and given identifier mappings; additional noise Hamiltonian looked up by identifier; rejections) is a Lean model run against the real function; it exposed defect F48 (duplicate identifiers after mapping), repaired.',
+            'The numerical content of _merge_attrs/_insert_attrs beyond the factor order is validated, not proved; n-fold extension follows from the binary rule plus C06 but is not stated as one theorem.'),
+    'C06': ('; definition part of remap on abstract pulses (model RemapDef, module C06Def): identifier mapping, argsort order, association of operators / coefficients / identifiers, composition, identity, cached rows follow the new noise-operator order',
+            ' The identifier mapping of remap is now modelled and proved (remapDef_keeps_association, remapDef_compose, remap_cached_rows_follow_noise_order) and run against the real function.',
+            'np.argsort on strings is stable only up to 16 elements (observed); after the repair of F48 tied identifiers are rejected; non-Pauli / incomplete bases: remap keeps the cached filter function, wrong only for incomplete bases not invariant under the permutation (noted).'),
+    'C09': ('; conditional complete positivity of the first-order cumulant function and of every Lindblad generator (projected Choi matrix PSD), second order = unitary part, complete positivity of exp(K) (Euler limit in a Banach algebra + closed cone of CP maps), verdicts of liouville_is_CP / liouville_is_cCP under the eigenvalue oracle (modules C09cCP, C09EtmCP, C09EtmCPLiou, C09EtmChoi)',
+            ' For every complete orthonormal Hermitian basis containing a multiple of the identity and every real symmetric positive-semidefinite matrix of decay amplitudes, the first-order cumulant function passes the package\'s cCP test and the error transfer matrix exp(K) (also with the second-order part, also for sums over noise sources) has a positive-semidefinite Choi matrix, i.e. passes liouville_is_CP.',
+            'expm and the eigenvalue routine are oracles; complete positivity is proved for real symmetric PSD decay amplitudes (what the package forms for PSD spectra) — for a complex Hermitian matrix the statement is false; the sparse COO path of the trace tensor is validated by search.'),
+    'C10': ('; model of calculate_frequency_shifts (three spectrum shapes, subsets): entries, slices, linearity, dependence on the F2 values only (reuse of intermediates), Hermitian part = decay amplitudes (module C10Shifts)',
+            ' The frequency shifts are proved to be the trapezoid of S x F2 / 2 pi and to depend only on the second-order filter function values, so reusing cached intermediates that equal the fresh ones cannot change them.', None),
+    'C11': ('; the array assembly of the control-matrix derivative (model GradientAsm: tensor / diagonal / F-order reshapes / einsums / sensitivity term / Liouville derivative) equals the product-rule formula and HasDerivAt the control-matrix model (modules C11Asm, C11AsmDeriv)',
+            ' The assembled control-matrix derivative is proved to be the derivative (HasDerivAt) of the control-matrix model with respect to each control amplitude on each segment, with and without control-dependent sensitivities, and composed with the filter-function derivative formula; the assembly model is run against calculate_derivative_of_control_matrix_from_scratch on the pulse\'s own eigen-data.',
+            'The derivative theorems exclude the grey zones of the absolute masks by hypothesis (open findings F12: division by a zero sensitivity, F30: grey zone); the trapezoid integration over frequency is linear but not composed; reuse of cached intermediates is covered by C07 and the search.'),
+    'C12': ('; frequency shifts and second-order filter function under a change of basis, error transfer matrix with second order from pulse data (module C10Shifts)',
+            ' The second-order part is now included end to end: K\' = O K O^T and exp(sum K\') = O exp(sum K) O^T from the pulse data, for any two complete orthonormal Hermitian bases.', None),
+    'C15': ('; Kraus <-> Choi (cp_iff_kraus), closure of the CP cone under sums, products and limits, exp of a Lindblad generator is CP, convex mixtures CP, negative Kraus weight not CP with an explicit tolerance bound, Lindblad generators pass / non-Lindblad generators fail the cCP test, closed-form Gell-Mann path = generic path for every d, stacks, total Liouville propagator = product (modules C15CP, C09cCP)',
+            ' The verdicts are now theorems about models of liouville_is_CP / liouville_is_cCP (up to the eigenvalue oracle): positive for unitary channels, their convex mixtures and every Lindblad generator, negative for maps with a negative Kraus weight and generators with a negative rate; the closed-form expansion path for large d is proved equal to the generic one.',
+            'The eigenvalue routine is an oracle; the comparison basis == Basis.ggm(d) that selects the closed-form path is an input flag of the model.'),
+}
+for _k, (_t, _x, _n) in ADDENDA.items():
+    t0, x0, n0, r0 = CLAIMS[_k]
+    CLAIMS[_k] = (t0 + _t, x0 + _x, _n if _n is not None else n0, r0)
+
 NOT_YET = 'not claimed yet in this round: model/theorems for this property are still being built'
 
 checks, na = [], []
